@@ -28,8 +28,17 @@ pub fn paths(fe: &Fe) -> Vec<Path> {
     for &k in &fe.kinds {
         v.push(base(format!("whole:{}", k.s()), k));
     }
-    for c in 1..=fe.max_closure {
-        v.push(Path { closure: c, ..base(format!("whole:{}", ["closure-singles", "closure-tail", "write_keystream"][c as usize - 1]), Kind::InPlace) });
+    for &c in &fe.closures {
+        let name = match c {
+            1 => "closure-singles",
+            2 => "closure-tail",
+            3 => "closure-inplace-singles",
+            4 => "closure-inplace-tail",
+            5 => "closure-all-singles",
+            6 => "closure-misaligned",
+            _ => "write_keystream",
+        };
+        v.push(Path { closure: c, ..base(format!("whole:{name}"), Kind::InPlace) });
     }
     if fe.multi {
         v.push(Path { unit: true, ..base("unitwise".into(), fe.kinds[0]) });
@@ -145,8 +154,8 @@ pub fn run(ctx: &Ctx) -> Outcome {
         let mut lens: Vec<usize> = if block_only { (0..=lmax / bs).map(|n| n * bs).collect() } else { byte_lengths(bs, lmax) };
         let mut lmax = lmax;
         if bs <= 32 && !sweep {
-            lens.extend(if block_only { vec![9 * bs, 17 * bs] } else { long_lengths(bs) });
-            lmax = lmax.max(17 * bs + 1);
+            lens.extend(if block_only { long_block_lengths(bs) } else { long_lengths(bs) });
+            lmax = lmax.max(*lens.iter().max().unwrap());
         }
         let enc_fes = family_frontends(cfg, fam, Dir::Enc);
         let dec_fes = family_frontends(cfg, fam, Dir::Dec);
@@ -157,6 +166,10 @@ pub fn run(ctx: &Ctx) -> Outcome {
                 for (dn, data) in data_variants(seed, 0xC01, lmax).into_iter().skip(if sweep { 2 } else { light(cfg, tier) }) {
                     for &l in &lens {
                         let m = &data[..l];
+                        // every decrypt path is run once per DISTINCT ciphertext: decryption is a deterministic function of
+                        // (object, ciphertext, path) -- C16 checks that independently -- so an encrypt path that reproduces a
+                        // ciphertext already decrypted through every path adds no new execution (counted, not re-run)
+                        let mut seen_ct: Vec<Vec<u8>> = vec![];
                         for ef in &enc_fes {
                             if l % ef.gran != 0 {
                                 continue;
@@ -174,6 +187,11 @@ pub fn run(ctx: &Ctx) -> Outcome {
                                 }
                                 let Some(ct) = ct else { continue };
                                 rep.outcome(&ct);
+                                if seen_ct.contains(&ct) {
+                                    rep.count("pairs_covered_by_equal_ciphertext", dec_fes.iter().filter(|df| l % df.gran == 0).map(|df| paths(df).len() as u64).sum());
+                                    continue;
+                                }
+                                seen_ct.push(ct.clone());
                                 for df in &dec_fes {
                                     if l % df.gran != 0 {
                                         continue;
